@@ -37,37 +37,7 @@
 using namespace vf;
 using namespace Spectra;
 
-// ---------------------------------------------------------------- live-allocation counter (per thread)
-static thread_local long g_live = 0;
-static thread_local bool g_track = false;  // only allocations made by the code under test (rig construction, run, destruction) are tracked
-static const uint64_t TAG_TRACKED = 0x7261636b65645f31ULL, TAG_PLAIN = 0x706c61696e5f5f31ULL;
-static void* tagged_alloc(std::size_t n)
-{
-    unsigned char* p = static_cast<unsigned char*>(std::malloc(n + 16));
-    if (!p) throw std::bad_alloc();
-    *reinterpret_cast<uint64_t*>(p) = g_track ? TAG_TRACKED : TAG_PLAIN;
-    if (g_track) g_live++;
-    return p + 16;
-}
-static void tagged_free(void* q) noexcept
-{
-    if (!q) return;
-    unsigned char* p = static_cast<unsigned char*>(q) - 16;
-    if (*reinterpret_cast<uint64_t*>(p) == TAG_TRACKED) g_live--;
-    std::free(p);
-}
-void* operator new(std::size_t n) { return tagged_alloc(n); }
-void* operator new[](std::size_t n) { return tagged_alloc(n); }
-void operator delete(void* p) noexcept { tagged_free(p); }
-void operator delete[](void* p) noexcept { tagged_free(p); }
-void operator delete(void* p, std::size_t) noexcept { tagged_free(p); }
-void operator delete[](void* p, std::size_t) noexcept { tagged_free(p); }
-struct Track
-{
-    bool prev;
-    Track() : prev(g_track) { g_track = true; }
-    ~Track() { g_track = prev; }
-};
+#include "engine/alloc_track.h"
 
 // ---------------------------------------------------------------- faulting operator wrappers
 struct FaultEx : std::runtime_error
